@@ -209,6 +209,16 @@ pub fn std_chunks_mut<'a>(v: &'a mut Vec<Message>, n: usize) -> (r: Vec<&'a mut 
     ensures
         chunks_of(old(v)@, n as int, views(r@)),
 { unimplemented!() }
+// The sibling adapter `v.chunks_exact_mut(n)` (std semantics): only the COMPLETE chunks of length n, in order; a shorter remainder
+// is not yielded. Offered so that an edit from chunks_mut to chunks_exact_mut is decided by the clauses (the dropped tail refutes
+// [C20.all.*]) instead of ending as a lost anchor (seed C20_1).
+#[verifier::external_body]
+pub fn std_chunks_exact_mut<'a>(v: &'a mut Vec<Message>, n: usize) -> (r: Vec<&'a mut [Message]>)
+    requires n != 0,
+    ensures
+        concat(views(r@)) == old(v)@.take((old(v)@.len() as int / (n as int)) * (n as int)),
+        forall|k: int| 0 <= k < r@.len() ==> (#[trigger] views(r@)[k]).len() == n,
+{ unimplemented!() }
 // `for x in <&mut [T]>`: one exclusive reference per element, in order; the slice after the borrows end holds, at each
 // index, the final value of that index's borrow (as std_vec_iter_mut of unit encryption)
 #[verifier::external_body]
